@@ -35,8 +35,11 @@ SIG_ORDER = "rollback-order: a failing ChangeSet.do/undo compensates two or more
 SIG_FINISH = "stop-at-finish: stop() requested while a sub-change runs is first observed by finished_job, after its effect"
 SIG_REMOVE = "removed-before-failure: a RemoveResource was performed before the failure (RemoveResource.undo is not implemented)"
 
-SIG_OBSERVER = ("observer-read-fault: a file read issued by a resource observer (automatic_soa) after the sub-change's "
-                "primitive raises; the sub-change is not in `done` and its effect stays (outside the model)")
+SIG_OBSERVER = ("observer-failure: a resource observer notified after the sub-change's primitive raises (its own exception, "
+                "or a failing file read of automatic_soa); the sub-change is not in `done`; the tree after the call is the one "
+                "predicted by Observer.ohistory_* with that notification failing")
+SIG_PARTIAL = ("partial-write: the injected fault of a write hits after open(path, 'wb') truncated the file; the sub-change is "
+               "not in `done`; the tree after the call is the one predicted by Observer.ohistory_* with prim_atomic = false")
 
 CONTENTS = ["", "A\n", "B\n", "x = 1\n", "y = 2\n", "C"]
 SEGS = L.SEGMENTS
@@ -50,8 +53,10 @@ def CS(n, *children):
 def catalogue():
     S = []
 
-    def add(tree, op, setup=(), limit=100, name=""):
+    def add(tree, op, setup=(), limit=100, name="", preview=None):
         S.append({"tree": tree, "limit": limit, "setup": list(setup), "op": op, "name": name})
+        if preview is not None:
+            S[-1]["preview"] = preview
 
     t_ab = {"a": "A\n", "b": "B\n"}
     # rollback order
@@ -67,6 +72,13 @@ def catalogue():
     add({"d": None, "d/a": "A\n", "d/b": None, "d/b/x": "C"},
         ["do", CS(7, ["MV", "d", "x", True], ["CC", "x/a", "B\n", None], ["MV", "x/b", "b", True], ["CC", "b/x", "", None])],
         name="folder subtree moves")
+    # previewed before other recorded edits, then performed (the preview must not capture anything)
+    add(dict(t_ab), ["do", CS(40, ["CC", "a", "C", None], ["CC", "b", "C", None], ["CR", "b", False])],
+        setup=[["do", CS(41, ["CC", "a", "x = 1\n", None])]], preview=0,
+        name="previewed, then another edit of its file, then performed")
+    add({"c.py": "x = 1\n", "d": None}, ["do", CS(42, ["CC", "c.py", "y = 2\n", None], CS(43, ["MV", "c.py", "d/c.py", False], ["CC", "d/c.py", "", None]))],
+        setup=[["do", CS(44, ["CC", "c.py", "", None])], ["undo"], ["redo"]], preview=1,
+        name="previewed between set-up operations")
     # removal
     add(dict(t_ab), ["do", CS(8, ["RM", "a", False], ["CR", "b", False])], name="removal then refused creation")
     add(dict(t_ab), ["do", CS(9, ["CC", "a", "C", None], ["RM", "a", False])], name="removal last")
@@ -274,6 +286,9 @@ def gen_scenario(rng):
             scn["op"] = ["do", gen_leaf(rng, sh)]
         else:
             scn["op"] = ["do", gen_change(rng, sh, ids)]
+        if rng.random() < 0.35:
+            # the change is constructed and previewed before set-up operation number `preview`
+            scn["preview"] = rng.randrange(len(scn["setup"]) + 1)
     return scn
 
 
@@ -283,12 +298,16 @@ def judge(r):
     'ok' | 'skip:<why>' | 'atomicity' | 'bookkeeping' | 'swallowed'."""
     if r.build_error is not None:
         return "skip:unbuildable", r.build_error
+    if getattr(r, "preview_mutated", None) and not r.raised:
+        return "preview", "previewing the change (get_description / str / get_changed_resources) modified it: " + r.preview_mutated[:300]
     if r.raised:
-        if r.fired and r.codes[-1:] != [1]:
+        if r.fired and r.codes[-1:] not in ([1], [9]):
             return "skip:fault during rollback (double failure)", ""
+        if getattr(r, "obsfail", None) is not None and r.codes[-1:] != [9] and 9 in r.codes:
+            return "skip:observer failure during rollback (double failure)", ""
         if r.unmodelled:
             return "skip:shutil copy fallback", ""
-        if r.py_irrev and not r.removed:
+        if r.py_irrev and not r.removed and not getattr(r, "preview_mutated", None):
             return "skip:ill-formed change (occupied destination, stale or missing old contents, non-empty creation undone)", ""
         same_tree = r.post_tree == r.pre_tree
         same_lists = (len(r.post_undo_objs) == len(r.pre_undo_objs) and len(r.post_redo_objs) == len(r.pre_redo_objs)
@@ -305,6 +324,8 @@ def judge(r):
             if not r.current_change_cleared:
                 what.append("history.current_change left set")
             return "atomicity", "%s raised %s but %s" % (r.op[0], r.exc_repr, "; ".join(what))
+        if getattr(r, "preview_mutated", None):
+            return "preview", "previewing the change modified it: " + r.preview_mutated[:300]
         return "ok", ""
     # the call returned
     if r.fired:
@@ -332,8 +353,10 @@ def judge(r):
 
 def structural_class(r):
     """Which known defect, if any, explains a failed atomicity verdict (structural facts of the run)."""
-    if getattr(r, "fired_in_observer", False):
+    if r.codes[-1:] == [9] and (getattr(r, "fired_in_observer", False) or getattr(r, "obsfail", None) is not None):
         return SIG_OBSERVER
+    if getattr(r, "partial", False) and r.fired and r.truncated and r.codes[-1:] == [1]:
+        return SIG_PARTIAL
     if r.removed:
         return SIG_REMOVE
     if r.codes[-1:] == [6] and "finished_job" in r.base_frames:
@@ -346,14 +369,16 @@ def structural_class(r):
 
 def replay_obj(scn, r, verdict, text, cls):
     return {"kind": "scenario", "scenario": r.scenario,
-            "name": scn.get("name", ""), "flt": r.flt, "stp": r.stp, "obs": getattr(r, "obs", None), "verdict": verdict, "observed": text, "class": cls}
+            "name": scn.get("name", ""), "flt": r.flt, "stp": r.stp, "obs": getattr(r, "obs", None),
+            "obsfail": getattr(r, "obsfail", None), "partial": getattr(r, "partial", False), "verdict": verdict, "observed": text, "class": cls}
 
 
 def signature(obj):
     if obj.get("class"):
         return obj["class"]
     if obj.get("kind") == "scenario":
-        r = L.execute(obj["scenario"], flt=obj.get("flt"), stp=obj.get("stp"), obs=obj.get("obs"))
+        r = L.execute(obj["scenario"], flt=obj.get("flt"), stp=obj.get("stp"), obs=obj.get("obs"),
+                      obsfail=obj.get("obsfail"), partial=bool(obj.get("partial")))
         v, _ = judge(r)
         if v == "atomicity":
             return structural_class(r)
@@ -363,9 +388,10 @@ def signature(obj):
 
 def replay(ctx, obj):
     if obj.get("kind") == "scenario":
-        r = L.execute(obj["scenario"], flt=obj.get("flt"), stp=obj.get("stp"), obs=obj.get("obs"))
+        r = L.execute(obj["scenario"], flt=obj.get("flt"), stp=obj.get("stp"), obs=obj.get("obs"),
+                      obsfail=obj.get("obsfail"), partial=bool(obj.get("partial")))
         v, _ = judge(r)
-        return v in ("atomicity", "bookkeeping", "swallowed")
+        return v in ("atomicity", "bookkeeping", "swallowed", "preview")
     if obj.get("kind") == "variant":
         # the two fixed defects' witnesses decide whether the code is (again) not the repaired variant
         w1 = {"tree": {"a": "A\n"}, "limit": 100, "setup": [],
@@ -374,30 +400,44 @@ def replay(ctx, obj):
               "op": ["do", CS(1, ["CC", "a", "C", None], ["CC", "b", "C", None])]}
         return (judge(L.execute(w1))[0] == "atomicity") or (judge(L.execute(w2, stp=1))[0] == "atomicity")
     if obj.get("kind") == "mismatch":
-        r = L.execute(obj["scenario"], flt=obj.get("flt"), stp=obj.get("stp"))
-        reports = evaluate(ctx, [r])
+        r = L.execute(obj["scenario"], flt=obj.get("flt"), stp=obj.get("stp"), obs=obj.get("obs"),
+                      obsfail=obj.get("obsfail"), partial=bool(obj.get("partial")))
+        reports = evaluate(ctx, [r], extended=bool(obj.get("extended")))
         return bool(reports[obj["variant"]][0] & 63)
     return True
 
 
 # --------------------------------------------------------------------------------- Coq evaluation
-def evaluate(ctx, runs, shard=200):
-    """-> {variant: [report word per run]}"""
+def evaluate(ctx, runs, shard=200, extended=False, static=False):
+    """-> {variant: [report word per run]} (+ key 'static': [0/1 per run] when asked).
+    extended: the runs carry an observer-failure index / a truncating write and are evaluated by
+    Runner.oreport over Observer.ohistory_*."""
     bodies = []
     for s in range(0, len(runs), shard):
-        terms = [L.g_case(r) for r in runs[s:s + shard]]
-        body = L.HEADER + "Definition cases : list case := %s.\n" % L.g_list(terms).replace("; {|", ";\n {|")
+        if extended:
+            terms = [L.g_ocase(r) for r in runs[s:s + shard]]
+            body = L.HEADER + "Definition cases : list ocase := %s.\n" % L.g_list(terms).replace("; {| oc_base", ";\n {| oc_base")
+            fn = "oreport"
+        else:
+            terms = [L.g_case(r) for r in runs[s:s + shard]]
+            body = L.HEADER + "Definition cases : list case := %s.\n" % L.g_list(terms).replace("; {|", ";\n {|")
+            fn = "report"
         for v in VARIANTS:
-            body += "Eval vm_compute in (report %s cases).\n" % v
+            body += "Eval vm_compute in (%s %s cases).\n" % (fn, v)
+        if static:
+            body += "Eval vm_compute in (sreport cases).\n"
         bodies.append(body)
     outs = ctx.coq_files_parallel(bodies)
     res = {v: [] for v in VARIANTS}
+    if static:
+        res["static"] = []
+    keys = VARIANTS + (["static"] if static else [])
     for si, out in enumerate(outs):
         nums = ctx.parse_nums(out)
         n_here = len(runs[si * shard:(si + 1) * shard])
-        if len(nums) != len(VARIANTS) or any(len(x) != n_here for x in nums):
+        if len(nums) != len(keys) or any(len(x) != n_here for x in nums):
             raise RuntimeError("unexpected coqc output for shard %d: %s" % (si, out[:500]))
-        for v, words in zip(VARIANTS, nums):
+        for v, words in zip(keys, nums):
             res[v].extend(words)
     return res
 
@@ -414,10 +454,16 @@ def describe_bits(w):
 def expand(scn, ctx, runs, owner, thorough_extra, probes=None):
     """all runs of one scenario: set-up ops, clean run, every fault index, every stop index"""
     clean, setup_runs = L.execute(scn, record_setup=True)
-    if probes is not None and clean.observer_reads:
-        # oracle-only probe outside the model: the fault hits a read issued by a resource observer
-        for o in range(min(clean.observer_reads, 8)):
-            probes.append((scn, L.execute(scn, obs=o)))
+    if probes is not None:
+        # extended schedule (Observer.v): (1) the harness's own observer raises at notification o;
+        # (2) a read issued by one of rope's observers is failed; (3) a write is failed after truncating
+        for o in range(min(clean.n_obs, 6)):
+            probes.append((scn, "observer", L.execute(scn, obsfail=o)))
+        for o in range(min(clean.observer_reads, 6)):
+            probes.append((scn, "observer-read", L.execute(scn, obs=o)))
+        writes = [i for i, (name, fwd, st) in enumerate(x for x in clean.log) if name == "write"]
+        for k in writes[:4]:
+            probes.append((scn, "partial-write", L.execute(scn, flt=k, partial=True)))
     for r in setup_runs:
         runs.append(r)
         owner.append((scn, "setup"))
@@ -429,8 +475,8 @@ def expand(scn, ctx, runs, owner, thorough_extra, probes=None):
     for j in range(clean.notifications):
         runs.append(L.execute(scn, stp=j))
         owner.append((scn, "stop"))
-    if thorough_extra and clean.calls and clean.notifications:
-        for _ in range(min(4, clean.calls)):
+    if clean.calls and clean.notifications:
+        for _ in range(min(4 if thorough_extra else 2, clean.calls)):
             k = ctx.rng.randrange(clean.calls)
             j = ctx.rng.randrange(clean.notifications)
             runs.append(L.execute(scn, flt=k, stp=j))
@@ -441,10 +487,12 @@ def run(ctx):
     ctx.rule = ("scenario = initial tree over a 6-name pool (depth <= 3) + 0-3 set-up history operations + the operation "
                 "under test (History.do of a generated change tree of <= 8 leaves and nesting <= 3, undo(), redo()); a fixed "
                 "catalogue of dependent/nested/refused shapes plus PRNG-generated ones; each scenario is run cleanly, then once "
-                "per counted primitive call index (fault) and once per task-handle notification index (stop). A case is "
+                "per counted primitive call index (fault), once per task-handle notification index (stop), a few fault+stop "
+                "combinations, and on the extended schedule: once per observer notification (the harness's observer raises), per "
+                "observer-issued read, per write (fault after truncation). A case is "
                 "non-trivial when the call raised after at least one primitive had succeeded (a rollback was needed); distinct "
                 "by (tree, history lists, operation, change, fault index, stop index).")
-    n_random = ctx.scale(300, 1500)
+    n_random = ctx.scale(220, 1500)
     scenarios = catalogue() + [gen_scenario(ctx.rng) for _ in range(n_random)]
     runs, owner, probes = [], [], []
     for scn in scenarios:
@@ -459,7 +507,8 @@ def run(ctx):
     runs = [runs[i] for i in keep]
     owner = [owner[i] for i in keep]
 
-    reports = evaluate(ctx, runs)
+    reports = evaluate(ctx, runs, static=True)
+    static = reports.pop("static")
 
     # ---- which model variant is the code under test?
     def mismatching(v):
@@ -488,7 +537,7 @@ def run(ctx):
 
     if not exact:
         ctx.count("model_mismatching_cases", len(mism[vstar]))
-        failing = ("atomicity", "bookkeeping", "swallowed")
+        failing = ("atomicity", "bookkeeping", "swallowed", "preview")
         with_input = [i for i in mism[vstar] if judge(runs[i])[0] in failing]
         ctx.count("model_mismatching_cases_with_failing_oracle", len(with_input))
         # mismatching cases on which the oracle fails are reported below with their input; of the others
@@ -508,6 +557,7 @@ def run(ctx):
                               vstar, describe_bits(rep[i]), scn.get("name"), r.op[0], r.flt, r.stp), no_input=True)
     in_domain = 0
     artefacts = 0
+    certified = 0
     for i, r in enumerate(runs):
         scn, kind = owner[i]
         w = rep[i]
@@ -530,6 +580,17 @@ def run(ctx):
         if w & 2048:
             artefacts += 1
             ctx.count("model_artefact_unmodelled_or_fuel")
+        if static[i]:
+            certified += 1
+            if r.raised:
+                ctx.count("statically_certified_and_raised")
+            # theorem C10_static_sound: a certified change never sets the irreversibility flag, in any variant
+            if any(reports[v][i] & 256 for v in VARIANTS) or (r.unknown_phase == 0 and r.py_irrev):
+                ctx.violation({"kind": "mismatch", "scenario": r.scenario, "flt": r.flt, "stp": r.stp, "variant": vstar,
+                               "broken": "Static.rscan certifies the change but an irreversible sub-change was performed "
+                                         "(model flag or the harness's own verdict): theorem C10_static_sound / the definition "
+                                         "Change.leaf_rev no longer describe the code"},
+                              "C10: statically certified change performed an irreversible sub-change", no_input=True)
         # theorem domain (repaired model): raised, no irreversible prefix, single failure, well-formed tree
         if (wr & 64) and not (wr & 256) and (wr & 512) and (wr & 4096) and not (wr & 2048):
             in_domain += 1
@@ -539,7 +600,7 @@ def run(ctx):
                                "broken": "vm_compute of the repaired model contradicts theorem C10_do_atomic/C10_undo_atomic: the "
                                          "case file and the proved development disagree"},
                               "C10: repaired model not atomic inside the theorem's domain", no_input=True)
-        if verdict in ("atomicity", "bookkeeping", "swallowed"):
+        if verdict in ("atomicity", "bookkeeping", "swallowed", "preview"):
             cls = structural_class(r) if verdict == "atomicity" else "other:" + verdict
             # the structural explanation must be confirmed by the model: the code behaves exactly as the
             # matching variant, and the variant with that one defect repaired is atomic on this case
@@ -547,7 +608,9 @@ def run(ctx):
                 fix = {"v_ft": {SIG_ORDER: "v_tt", SIG_FINISH: "v_ff"}, "v_ff": {SIG_ORDER: "v_tf"},
                        "v_tt": {SIG_FINISH: "v_tf"}, "v_tf": {}}[vstar]
                 if cls == SIG_REMOVE:
-                    confirmed = bool(w & 256)
+                    # the model predicts exactly this failure: it raised, it flagged an irreversible
+                    # sub-change, it did not restore the state, and the static scan rejects the change
+                    confirmed = bool(w & 256) and bool(w & 64) and not (w & 128) and not static[i]
                 elif cls in fix and r.flt is not None and not r.fired:
                     # a scheduled fault that never fired in the code could fire during the rollback of the
                     # repaired model: no model confirmation for these (the stop-only sibling run has one)
@@ -567,21 +630,49 @@ def run(ctx):
                           "C10 %s: %s [scenario %r, fault index %s, stop index %s]" % (verdict, text, scn.get("name"), r.flt, r.stp))
         if ctx.too_many(9):
             break
-    # ---- probe stream (oracle only, not in the model): faults in observer-issued reads
-    for scn, r in probes:
-        if r.build_error is not None:
-            continue
-        verdict, text = judge(r)
-        ctx.count("observer_probe:%s" % verdict.split(" ")[0])
-        ctx.case(("observer-probe", sorted(r.pre_tree.items()), r.pre_undo, r.pre_redo, r.op, r.change, r.obs),
-                 nontrivial=(verdict == "atomicity"))
-        if verdict in ("atomicity", "bookkeeping", "swallowed"):
-            cls = structural_class(r) if verdict == "atomicity" else "other:" + verdict
-            ctx.violation(replay_obj(scn, r, verdict, text, cls),
-                          "C10 %s (observer-read probe): %s [scenario %r, observer read %s]" % (verdict, text, scn.get("name"), r.obs))
-        if ctx.too_many(9):
-            break
-    ctx.extra["observer_probe_runs"] = len(probes)
+    # ---- extended schedule: observer failures and truncating writes, compared with Observer.ohistory_*
+    probes = [(scn, kind, r) for (scn, kind, r) in probes
+              if r.build_error is None and L.representable(r) and not r.observer_raised and r.unknown_phase == 0]
+    if probes:
+        oreports = evaluate(ctx, [r for (_, _, r) in probes], extended=True)
+        orep = oreports[vstar]
+        omism = [i for i, w in enumerate(orep) if (w & 63) and not (w & 2048)]
+        ctx.count("extended_model_mismatching_cases", len(omism))
+        reported = 0
+        for i, (scn, kind, r) in enumerate(probes):
+            w = orep[i]
+            verdict, text = judge(r)
+            ctx.count("extended:%s:%s" % (kind, verdict.split(" ")[0]))
+            ctx.traces += 1
+            ctx.case((kind, sorted(r.pre_tree.items()), r.pre_undo, r.pre_redo, r.op, r.change, r.flt, r.obs, r.obsfail),
+                     nontrivial=(verdict == "atomicity"))
+            failing = verdict in ("atomicity", "bookkeeping", "swallowed", "preview")
+            if failing:
+                cls = structural_class(r) if verdict == "atomicity" else "other:" + verdict
+                if cls in (SIG_OBSERVER, SIG_PARTIAL, SIG_REMOVE):
+                    # attributed only when the extended model predicts exactly this outcome: same error chain,
+                    # same tree, same lists, and the model itself raised without restoring the state
+                    if not ((w & 63) == 0 and (w & 64) and not (w & 128)):
+                        cls = "unexplained"
+                    elif cls == SIG_REMOVE and not (w & 256):
+                        cls = "unexplained"
+                ctx.violation(replay_obj(scn, r, verdict, text, cls),
+                              "C10 %s (%s): %s [scenario %r, fault %s, observer read %s, observer %s]" % (
+                                  verdict, kind, text, scn.get("name"), r.flt, r.obs, r.obsfail))
+            elif i in omism and reported < 3:
+                reported += 1
+                ctx.violation({"kind": "mismatch", "extended": True, "scenario": r.scenario, "flt": r.flt, "stp": r.stp,
+                               "obs": r.obs, "obsfail": r.obsfail, "partial": r.partial, "variant": vstar,
+                               "differs": describe_bits(w), "oracle": verdict,
+                               "broken": "correspondence RopeVerif.C10.Runner.oreport1 (Observer.ohistory_* vs rope with a failing "
+                                         "observer / truncating write): theorems C10_*_observer_free, C10_observer_failure_refuted, "
+                                         "C10_partial_write_refuted no longer speak about the code"},
+                              "C10: extended model (%s) and rope differ on %s [%s, scenario %r]" % (
+                                  vstar, describe_bits(w), kind, scn.get("name")), no_input=True)
+            if ctx.too_many(9):
+                break
+    ctx.extra["extended_schedule_runs"] = len(probes)
+    ctx.extra["statically_certified_cases"] = certified
     ctx.extra["cases_in_theorem_domain"] = in_domain
     ctx.extra["scenarios"] = len(scenarios)
     ctx.extra["model_artefact_cases"] = artefacts
@@ -591,6 +682,8 @@ def run(ctx):
             ctx.sample({"tree": {k: (None if v is None else v.decode()) for k, v in r.pre_tree.items()}, "op": r.op,
                         "change": r.change, "fault_index": r.flt, "stop_index": r.stp, "raised": r.exc_repr,
                         "tree_after": {k: (None if v is None else v.decode()) for k, v in r.post_tree.items()}})
-    ctx.assumptions.append("a raising file-system primitive has no partial effect (faults are injected before the call is performed)")
-    ctx.assumptions.append("resource observers (automatic_soa etc.) do not raise; their own file reads are not fault points")
+    ctx.assumptions.append("prim_atomic: a raising file-system primitive has no partial effect (named flag of Observer.osched; "
+                           "the truncating-write stream runs with the flag off and reproduces C10-partial-write)")
+    ctx.assumptions.append("rope's own resource observers are not modelled; an observer that raises is modelled as failure point "
+                           "`obs` after the primitive (harness observer, failed automatic_soa reads); C10_*_atomic assume obs = None")
     ctx.assumptions.append("shutil.move's copytree fallback (folder moved below a missing parent) is outside the model")
